@@ -43,6 +43,11 @@ var (
 	TokenKeywords = []string{"in", "and", "or", "not", "true", "false", "as", "export"}
 )
 
+// eofRune is returned by lexer.next() at the end of the input. It must not be a
+// value utf8.DecodeRuneInString can produce (the token type constant EOF is 1,
+// which is also the rune U+0001).
+const eofRune rune = -1
+
 type (
 	TokenType int
 	Token     struct {
@@ -168,7 +173,7 @@ func (l *lexer) emit(t TokenType) {
 func (l *lexer) next() rune {
 	if l.pos >= len(l.input) {
 		l.width = 0
-		return EOF
+		return eofRune
 	}
 	r, w := utf8.DecodeRuneInString(l.input[l.pos:])
 	l.width = w
@@ -265,7 +270,7 @@ func (l *lexer) run() {
 
 				for {
 					switch l.peek() {
-					case EOF:
+					case eofRune:
 						l.errorf("Single-line comment not closed.")
 						return
 					case '\n':
@@ -305,7 +310,7 @@ func (l *lexer) run() {
 			l.line++
 			l.col = 0
 		}
-		if l.next() == EOF {
+		if l.next() == eofRune {
 			break
 		}
 	}
@@ -422,7 +427,7 @@ func (l *lexer) stateString() lexerStateFn {
 			default:
 				return l.errorf("Unknown escape sequence: \\%c", l.peek())
 			}
-		case EOF:
+		case eofRune:
 			return l.errorf("Unexpected EOF, string not closed.")
 		case '\n':
 			return l.errorf("Newline in string is not allowed.")
